@@ -9,9 +9,14 @@ from C09 import CleanBase, parse_entries, frame, CLEAN_FIELDS, env_at_clean
 nat_less = G.nat_less
 
 
+def overflowing(i):
+    """the id holds a numeral that does not fit 64 bits"""
+    return any(int(m) >= 2 ** 64 for m in re.findall(rb"\d+", i))
+
+
 class C10(CleanBase):
     pid = "C10"
-    fields = dict(CleanBase.fields, natural="*", testid="*")
+    fields = dict(CleanBase.fields, natural="*", testid="*", clean=CLEAN_FIELDS + ["touched"])
     rule = ("well-formed snapshot files (ids of mixed numeric width such as TestC9/TestC10 and - 1..- 12 ordinals, any order, bodies "
             "with blank, terminator-like and bracketed lines) x subsets of stale entries x sort on/off x modes, Clean run twice; "
             "plus direct comparisons of the natural comparator / sort / sortedness test and header recognition on generated ids; "
@@ -78,12 +83,16 @@ class C10(CleanBase):
         # natural comparator vs independent implementation
         for (name, kv), r_ in zip([o for o in ops if o[0] == "natural"], [r for r in results if r[0] == "natural"]):
             ids = [unhx(x) for x in kv["ids"].split(",")] if kv["ids"] != "~" else []
-            bits = ""
+            # (pairs with a numeral of 2^64 or more are not judged: there "natural order" is whatever the comparator falls
+            # back to - see K11 - and a repaired comparator may order them numerically)
+            bits, judged = "", ""
             for i in range(len(ids)):
                 for j in range(i, len(ids)):
                     bits += "1" if nat_less(ids[i], ids[j]) else "0"
                     bits += "1" if nat_less(ids[j], ids[i]) else "0"
-            if r_[2]["less"] not in ("*", bits or "-"):
+                    judged += "00" if (overflowing(ids[i]) or overflowing(ids[j])) else "11"
+            got = r_[2]["less"]
+            if got != "*" and (len(got) != len(bits or "-") or any(g != b_ for g, b_, m_ in zip(got, bits, judged) if m_ == "1")):
                 fails.append({"msg": "natural.Less disagrees with the independent comparator on %s" % ids})
         if len(fss) < 3 or len(cl) < 2 or "sort" not in meta:
             return fails
@@ -113,14 +122,14 @@ class C10(CleanBase):
         if sorting:
             ids1 = [i for i, _ in e1]
             for x, y in zip(ids1, ids1[1:]):
-                if x != y and nat_less(y, x):
+                if x != y and nat_less(y, x) and not overflowing(x) and not overflowing(y):
                     fails.append({"msg": "after sorting %r precedes %r" % (x, y)})
                     break
         needs_prune = deletes and bool(stale)
         ids0 = [i for i, _ in e0]
         unsorted = any(x != y and nat_less(y, x) for x, y in zip(ids0, ids0[1:]))
-        if not needs_prune and not (sorting and unsorted):
-            if ("mod:" + main) in cl[0][2]["writes"]:
+        if not needs_prune and not (sorting and (unsorted or any(overflowing(i) for i in ids0))):
+            if ("mod:" + main) in cl[0][2]["writes"] or main in cl[0][2].get("touched", "-").split(","):
                 fails.append({"msg": "file needing neither pruning nor sorting was written: %s" % cl[0][2]["writes"]})
         # idempotence
         if b2 != b1 or cl[1][2]["writes"] != "-":
@@ -128,14 +137,13 @@ class C10(CleanBase):
         return fails
 
     def known_signature(self, finding, case, ops, results, failure):
-        if finding["id"] == "K11" and ("second Clean changed something" in failure["msg"] or "after sorting" in failure["msg"]):
+        if finding["id"] == "K11" and "second Clean changed something" in failure["msg"]:
             fss = [r for r in results if r[0] == "fs"]
             main = hx(b"/S/def/zz_verif_trace_test.snap")
             if not fss or main not in fss[0][2] or not any(kv.get("sort") == "1" for n_, kv in ops if n_ == "clean"):
                 return False
             ids = [i for i, _ in parse_entries(unhx(fss[0][2][main]))]
-            overflowing = any(int(m) >= 2 ** 64 for i in ids for m in re.findall(rb"\d+", i))
-            return len(ids) >= 13 and overflowing
+            return len(ids) >= 13 and any(overflowing(i) for i in ids)
         return False
 
     def nontrivial(self, case, ops, results):
